@@ -5,7 +5,7 @@ import os
 from common import nl_lines, Check, log, tool_error
 from l1 import apply_l1
 from common import CACHE, ensure_oracle, run_harness
-from l3 import l3_run
+from l3 import l3_run, long_run
 from mc import replay, run_mc, spec_violation
 
 TIERS = ("quick", "thorough")
@@ -102,7 +102,7 @@ def classify_std(m):
 
 
 ALL_INVS = ["Agree", "PrepareFailurePropagates", "NoDrift", "OutputClean", "FixedPoint", "OnlySpacesChange",
-            "MappingsAgree", "MappingsIdempotent", "AllowsAgree"]
+            "MappingsAgree", "MappingsIdempotent", "AllowsAgree", "PowerLawHolds", "PadLawHolds"]
 
 
 def profiles_mc(chk, name, roles, maxlen, profs, ops, instances=(0,), invariants=ALL_INVS, forms=True, workers=6, timeout=2400, frame=None):
@@ -145,6 +145,7 @@ def C04(chk):
                 invariants=["Agree", "NoDrift"], frame=(8, 2, 1, ("a", "eac")) if q else (9, 4, 2, ("a", "eac")))
     apply_l1(chk, ["wm", "lc1", "lc3", "bidi"], nontrivial_key="runs")
     l3_run(chk, "usernames-limits", driver="limits", per_string=2, kinds=["enforce"], profiles=profs, seed_offset=5)
+    long_run(chk, profiles=profs, ops=["prepare", "enforce"], max_bytes=5000 if q else 70000)
     l3_run(chk, "usernames", strings=1200 if q else 8000, per_string=4, kinds=["enforce", "enforce", "prepare"], profiles=profs)
     if not q:
         import selftest
@@ -169,6 +170,7 @@ def C05(chk):
                 invariants=["Agree", "OnlySpacesChange", "NoDrift"], frame=(8, 3, 2, ("a", "eac")) if q else (9, 9, 3, ("a", "eac", "han")))
     apply_l1(chk, ["osp"], nontrivial_key="zs")
     l3_run(chk, "opaque-limits", driver="limits", per_string=2, kinds=["enforce"], profiles=["OPQ"], seed_offset=5)
+    long_run(chk, profiles=["OPQ"], ops=ops)
     l3_run(chk, "opaque", strings=1200 if q else 8000, per_string=3, kinds=["enforce", "enforce", "prepare", "additional_mapping_rule"], profiles=["OPQ"])
     chk.cov["exhaustive"] = True
     chk.cov["rule"] = ("every string of length <= %d over two 9-role alphabets (all kinds of spaces incl. controls; compatibility, "
@@ -191,6 +193,7 @@ def C06(chk):
                 invariants=["Agree", "FixedPoint", "NoDrift"], frame=(8, 3, 2, ("a", "eac", "SP")) if q else (9, 9, 3, ("a", "eac", "SP")))
     apply_l1(chk, ["nsp"], nontrivial_key="zs")
     l3_run(chk, "nickname-limits", driver="limits", per_string=2, kinds=["enforce"], profiles=["NICK"], seed_offset=5)
+    long_run(chk, profiles=["NICK"], ops=ops)
     l3_run(chk, "nickname", strings=1200 if q else 8000, per_string=3, kinds=["enforce", "enforce", "prepare"], profiles=["NICK"], max_len=10)
     chk.cov["exhaustive"] = True
     chk.cov["rule"] = ("every string of length <= %d over a space alphabet (incl. U+00A8 whose NFKC introduces a leading space, so that "
@@ -209,6 +212,7 @@ def C10(chk):
     profiles_mc(chk, "case-framed", ["A", "ypo", "dotI", "DSR", "Sig", "Eac"], 0, ["UCM", "NICK"], ["case_mapping_rule"], (0,),
                 invariants=["Agree", "MappingsAgree"], frame=(8, 3, 1, ("a", "eac", "han")) if q else (17, 5, 2, ("a", "eac", "han")))
     apply_l1(chk, ["lc"], nontrivial_key="lower")
+    long_run(chk, profiles=["UCM", "NICK"], ops=["case_mapping_rule"])
     l3_run(chk, "case", strings=1000 if q else 6000, per_string=3, kinds=["case_mapping_rule", "case_mapping_rule", "enforce"], profiles=["UCM", "NICK"])
     chk.cov["exhaustive"] = True
     chk.cov["rule"] = ("every string of length <= %d over {lowercase, uppercase, titlecase (U+1F88, U+01C5), U+0130 (one-to-many), "
@@ -227,6 +231,7 @@ def C11(chk):
     profiles_mc(chk, "width-framed", ["FWA", "HWK", "ISP", "han", "cjkp", "emo"], 0, ["UCM"], ["width_mapping_rule"], (0,),
                 invariants=["Agree", "MappingsAgree"], frame=(9, 3, 1, ("a", "han")) if q else (17, 5, 2, ("a", "eac", "han")))
     apply_l1(chk, ["wm"], nontrivial_key="wm")
+    long_run(chk, profiles=["UCM", "UCP"], ops=["width_mapping_rule", "prepare"])
     l3_run(chk, "width", strings=1000 if q else 6000, per_string=3, kinds=["width_mapping_rule", "width_mapping_rule", "prepare"], profiles=["UCM", "UCP"])
     chk.cov["exhaustive"] = True
     chk.cov["rule"] = ("every string of length <= %d over {ASCII, fullwidth upper/lower, halfwidth katakana, ideographic space, other "
@@ -247,6 +252,7 @@ def C12(chk):
     profiles_mc(chk, "spaces-framed", ["SP", "NBSP", "OGH", "ISP", "han", "emo"], 0, ["NICK", "OPQ"], ["additional_mapping_rule", "enforce"], (0,),
                 invariants=["Agree", "MappingsAgree", "MappingsIdempotent"], frame=(8, 3, 2, ("a", "eac")) if q else (9, 9, 3, ("a", "eac", "SP")))
     apply_l1(chk, ["osp", "nsp"], nontrivial_key="zs")
+    long_run(chk, profiles=["NICK", "OPQ"], ops=["additional_mapping_rule"])
     l3_run(chk, "spaces", strings=1000 if q else 6000, per_string=3, kinds=["additional_mapping_rule", "additional_mapping_rule", "enforce"], profiles=["NICK", "OPQ"], max_len=10)
     chk.cov["exhaustive"] = True
     chk.cov["rule"] = ("every string of length <= %d over {SP, NBSP (2-byte Zs), OGHAM (3-byte Zs), 1/2/3/4-byte non-spaces} through both "
@@ -456,6 +462,7 @@ def C08(chk):
     chk.cov["distinct_nontrivial"] += summary["changed"]
     chk.sample({"layer": "sweep", "summary": summary})
     l3_run(chk, "enforce-limits", driver="limits", per_string=2, kinds=["enforce"], profiles=allp, seed_offset=5)
+    long_run(chk, profiles=allp, ops=["enforce"])
     info = l3_run(chk, "enforce-all", strings=600 if q else 8000, per_string=3, kinds=["enforce"], profiles=allp)
     chk.cov["rule"] = ("model: OutputClean and NoDrift on every enforce behaviour over alphabets of cased / decomposable / compatibility "
                        "characters (strings <= %d, 4 profiles), plus a configuration showing the invariant depends on the closure "
@@ -491,6 +498,7 @@ def C01(chk):
     for pe in r["panics"][:5]:
         chk.violation("panic while classifying / probing code points U+%04X..U+%04X" % (pe.get("lo", 0), pe.get("hi", 0)), {"layer": "L1", "event": pe})
     l3_run(chk, "all-ops-runs", driver="runs", per_string=3, seed_offset=3)
+    long_run(chk)
     l3_run(chk, "all-ops", strings=700 if q else 8000, per_string=5, max_len=12)
     chk.cov["rule"] = ("every string of length <= %s over an 11-symbol alphabet (1/2/3/4-byte characters, ASCII / 2-byte / 3-byte spaces, cased, "
                        "width-mapped, combining mark, ZWJ) and %s random UTF-8 strings (length <= 64, all planes) through EVERY public operation "
